@@ -62,14 +62,12 @@ def get_observation_expression(model: Model):
     stats = model.statements
     # FIXME: Handle other DVs
     dv = list(model.dependent_variables.keys())[0]
-    for i, s in enumerate(stats):
-        if s.symbol == dv:
-            y = s.expression
-            break
-    else:
+    i = stats.find_assignment_index(dv)
+    if i is None:
         raise ValueError('Could not locate dependent variable expression')
+    y = stats[i].expression
 
-    for j in range(i, -1, -1):
+    for j in range(i - 1, -1, -1):
         y = y.subs({stats[j].symbol: stats[j].expression})
 
     return y
